@@ -20,6 +20,16 @@ CLAIMED = {
    text="Generator pipelines (leaf, map, filter, chain, take, nest, relay, zip) written in calc with every yield bracketed by trace writes are consumed by loops at top level, in functions, at recursion depth, after recycled contexts and with early returns; the event log must satisfy the suspension-stack, body-after-yield, resume-after-body, exactly-once and abandon laws and match a list model. The same pipelines untraced and generator-heavy typed sessions are compared with the reference semantics.",
    note="Trace laws need no model of calc; the list model of constant-leaf pipelines and harness/rs are trusted for the value sequences.",
    design="6/C02"),
+ "C03": dict(
+   technique="runtime monitoring: metamorphic history monitor (one pure call evaluated in 13 dynamic contexts of one session, interleaved with noise, under plain/tight/pregrown allocation) + differential reference-model monitor",
+   text="Within one session a side-effect-free function (random typed, closure-around-deep-call, wide-frame with loop, zipped loops calling returned closures) is called with equal arguments as first statement, at recursion depth 1..1000, in while/for bodies, inside a generator, twice in one array literal, after a failed statement, after the stack grew by up to 4000 frames and after contexts were recycled; all renderings must equal the first and the reference.",
+   note="Purity of the generated function is by construction (no write/read); noise statements use disjoint global names.",
+   design="6/C03"),
+ "C04": dict(
+   technique="runtime monitoring: differential reference-model monitor + globals-frame monitor (complete global frame compared after every statement) + caller-frame self-checks executed by the program under test",
+   text="Name-pressure sessions reuse 2..5 names as global/parameter/local/for-variable/captured/inner local across three nesting levels; each function snapshots every visible name before and after each call it makes (any difference prints a DIFF marker), updates captured variables between calls, and lets closures escape directly, in arrays and in arrays of arrays, which are then called after deep recursion overwrote the dead frames; all observations are compared with the reference and the whole global frame is compared after every statement.",
+   note="Names are declared before any loop of a function body so static and dynamic lookup cannot differ (agreed region rule 1).",
+   design="6/C04"),
  "C05": dict(
    technique="runtime monitoring: universal no-abort monitor (panic/fatal/step-limit/undocumented-error oracle) over hostile parseable programs in child processes, both compile modes",
    text="Grammar-random ill-typed programs, an enumerated hostile-value x operator/statement-position matrix, token mutations of corpus programs and fault-planted typed sessions run through the real parser, compiler and VM in REPL and script mode inside child workers; any panic, Go fatal (worker death), undocumented error class, or step-limit hit where the reference interpreter terminates is a violation.",
@@ -30,6 +40,11 @@ CLAIMED = {
    text="After every statement of typed and directed sessions (both compile modes) the hooked (sp, frame, closure, live-context) counts must equal their values before it (all zero after a failure). Loop programs of six loop kinds x nine body tails are run with 3/30/300 iterations; the max stack pointer per memory kind and max live contexts at back-edges must be identical.",
    note="Relies on the verif accessors for sp/fp/closure/context counts and the step hook's per-memory maxima.",
    design="6/C09"),
+ "C08": dict(
+   technique="runtime monitoring: twin-run monitor (failure session vs a session that re-creates the completed globals by literal assignments) + residue assertion on hooked state after each failure + differential reference-model monitor",
+   text="Sessions prefix·F·suffix with F a parse error or one of the seven runtime error classes raised at top level, at call depth up to 200, in loop bodies, in (nested) generators after the k-th yield, in closures, or several in a row are compared statement-by-statement with a twin that never saw F but holds the same globals, and with the reference; the hooked machine state must be clean after every failure and unchanged by a parse error.",
+   note="Completed globals are literal-printable by construction; helper definitions inside F are replayed verbatim in the twin.",
+   design="6/C08"),
  "C12": dict(
    technique="runtime monitoring: metamorphic placement monitor (one expression in ~35 code-generation contexts, rewrite equivalences, enumerated non-boolean conditions) with the reference semantics as tie-breaker",
    text="Typed expressions are embedded in used/discarded/tail/return/argument/array/if/while/for/yield/top-level-return/operand-depth placements, each run on a fresh interpreter and compared (value where observable, output, error class) with the reference answer for the plain expression; x=x+1 vs x=1+x vs t=x;x=t+1, e op e vs t=e;t op t, negated if/while are cross-compared in both modes; every non-boolean condition in 24 statement placements must be a type error that runs no body.",
